@@ -282,6 +282,35 @@ func (c *Checker) replay(o *Obl, e *enc, model string) map[string]interface{} {
 	if e != nil && e.fc != nil && strings.HasPrefix(e.fc.Replay, "race:") {
 		return c.replayRace(o, e, strings.TrimSpace(strings.TrimPrefix(e.fc.Replay, "race:")), rp)
 	}
+	if e != nil && e.fc != nil {
+		switch kind := e.fc.Replay; {
+		case strings.HasPrefix(kind, "ecal:"):
+			return c.replayEcal(o, e, nil, strings.TrimSpace(strings.TrimPrefix(kind, "ecal:")), rp)
+		case strings.HasPrefix(kind, "ecal-error:"):
+			// the program must come back with an error value
+			src := strings.TrimSpace(strings.TrimPrefix(kind, "ecal-error:"))
+			rp["replay"] = "ecal program which must yield an error: " + src
+			rp = c.runEcal(src, rp)
+			if out, _ := rp["replay_output"].(string); strings.Contains(out, "REPLAY-ERROR <nil>") {
+				rp["confirmed"] = true
+				rp["outcome"] = "returned a value and no error: " + lineOf(out, "REPLAY-VALUE")
+			}
+			return rp
+		case strings.HasPrefix(kind, "ecal-value:"):
+			// "program => expected printed value"
+			parts := strings.SplitN(strings.TrimPrefix(kind, "ecal-value:"), "=>", 2)
+			if len(parts) == 2 {
+				src, want := strings.TrimSpace(parts[0]), strings.TrimSpace(parts[1])
+				rp["replay"] = "ecal program which must evaluate to " + want + ": " + src
+				rp = c.runEcal(src, rp)
+				if out, _ := rp["replay_output"].(string); strings.Contains(out, "REPLAY-DONE") && lineOf(out, "REPLAY-VALUE") != "REPLAY-VALUE "+want {
+					rp["confirmed"] = true
+					rp["outcome"] = "evaluated to " + strings.TrimPrefix(lineOf(out, "REPLAY-VALUE"), "REPLAY-VALUE ") + ", " + lineOf(out, "REPLAY-ERROR") + "; expected " + want
+				}
+				return rp
+			}
+		}
+	}
 	if e == nil || e.fc == nil || model == "" {
 		rp["replay"] = "no replay recipe for this obligation"
 		return rp
@@ -604,4 +633,13 @@ func TestVerifReplay(t *testing.T) {
 		rp["outcome"] = "replay did not run to completion"
 	}
 	return rp
+}
+
+func lineOf(out, prefix string) string {
+	for _, l := range strings.Split(out, "\n") {
+		if strings.HasPrefix(l, prefix) {
+			return strings.TrimSpace(l)
+		}
+	}
+	return ""
 }
